@@ -338,6 +338,27 @@ theorem flag_noninterference_x (ord : List String → Nat) (s : CliSpec) (hs : s
   simp only [Bool.and_eq_true, Bool.not_eq_true'] at ht
   exact flagX_noninterference_lemma ord s o f argv hwf ho hfl hg ht.1.1 hf hc hng ht.1.2
 
+/-- T-C17.5a″ (extended) VARIANT FLAGS (`randkcnf --plant`) ON EVERY LIST OF TOKENS: the flag in front does not change
+the parser's verdict, and when the line is accepted every expression that does not mention the flag has the same value
+in both namespaces — the flag selects the variant (`variantsAgree`, `every_flag_reaches_exactly_one_argument`) and
+changes nothing else. -/
+theorem variant_flag_x (s : CliSpec) (hs : s ∈ cliSpecs) (hsup : s.supported = true) (o : OptSpec)
+    (ho : o ∈ s.opts) (hfl : isFlag o = true) (hg : o.group = "") (f : String) (hf : f ≠ "--")
+    (hc : classifyTok (mainSpec s).strings f = .opt (.opt o) f none) (argv : List String) :
+    (∀ e, parseX s (f :: argv) = .error e ↔ parseX s argv = .error e) ∧
+    ∀ b, parseX s argv = .ok b → ∃ b', parseX s (f :: argv) = .ok b' ∧
+      ∀ e : Expr, o.dest ∉ e.deps → evalE (namespaceOf s b') e = evalE (namespaceOf s b) e := by
+  have h := flag_in_front_parses_alike s hs hsup o ho hfl hg f hf hc argv
+  refine ⟨fun e => ?_, fun b hb => ?_⟩
+  · rw [h]
+    cases parseX s argv with
+    | error e' => simp [mapOk]
+    | ok b => simp [mapOk]
+  · rw [h, hb]
+    refine ⟨_, rfl, fun e he => ?_⟩
+    exact evalE_frame _ _ o.dest
+      (fun k hk => dflag_lookup_insert k o.dest o.flagVal b (defaults s) hk) e he
+
 /-- ungrouped argument flags exist, also in the sub-commands outside `dispatch_total_all_tokens` (`op --plant`,
 `subsetcard --equal`, `php --functional --onto`) -/
 example : (cliSpecs.filter (fun s => s.supported && s.opts.any (fun o => isFlag o && o.group == "" &&
